@@ -374,3 +374,20 @@ prop("C13",
 # (lextok_unicode_escape - real Lexer::next() on a string literal whose \uXXXX escape has four symbolic hex digits - was
 # built and measured: 1500 s cap reached.  Together with the four-symbolic-layout-characters attempt this closes the
 # token level for C09: nothing that makes Lexer::next see a symbolic character fits.)
+
+# ---------------------------------------------------------------------------
+# C02 (soundness clause only): engine E5 - liveness as non-interference on the call-free program families
+for fam, d in E4_FAMILIES:
+    if fam in ("call", "func", "fp"):
+        continue  # what a callee reads is a convention, not a machine fact: call-free families only
+    side("e5_" + fam, "e5", ["C02", "C06"], symbolic="two register files (31 x BitVec 32 each), shared memory (Array), havoc values",
+         desc="E5: %s (programs without calls or non-exit ecalls) - two runs that agree on live_in(n) have the same observable behaviour at n and agree on live_out(n), for all machine states; live_in(succ) is a subset of live_out(n)" % d,
+         bounds="program family enumerated exhaustively; word-granular memory", family=fam)
+side("e5_seq4", "e5", ["C02", "C06"], tier="thorough", symbolic="as above", desc="E5: every 4-instruction body over the alphabet",
+     bounds="exhaustive", family="seq4")
+prop("C02",
+     outside="the 'least solution' clause (nothing beyond what the equations force); programs with calls, returns or non-exit "
+             "environment calls (argument/return inference, caller/callee coupling); programs outside the enumerated families; "
+             "LivenessPass::run as code (only seen through its output)",
+     assumptions=["z3 4.8.12", "the RV32IM reference semantics in mir2smt/e2.py/e4.py", "memory is always considered live (both runs share one memory; "
+                  "stores must store equal values at equal addresses)", "the CFG edges over-approximate real control flow (C03, not checked)"])
